@@ -197,19 +197,6 @@ def resValid (esc : Bytes → Bytes) (sc : Scenario) : Bool :=
 
 def allInsts (sc : Scenario) : List (Scope × Inst) := sc.scopes.flatMap (fun s => s.insts.map (fun i => (s, i)))
 
-/-- F34 (known finding): two instruments map to the same family and type, the first one has an
-empty description and a later one a non-empty one: `validateMetrics` returns help "" which Collect reads as
-"no conflict", the series keeps its own help and Registry.Gather fails. -/
-def F34_applies (esc : Bytes → Bytes) (sc : Scenario) : Bool :=
-  let rec go : List Seen → List (Scope × Inst) → Bool
-    | _, [] => false
-    | seen, (_, i) :: rest =>
-      let n := refName esc sc.cfg i.name i.unit i.dtype.mtype
-      match seen.find? (fun s => s.name == n) with
-      | some s => (s.typ == i.dtype.mtype && s.desc == [] && i.desc != []) || go seen rest
-      | none => go (seen ++ [⟨n, i.dtype.mtype, i.desc⟩]) rest
-  go [] (allInsts sc)
-
 /-- two series of the same family with identical label sets (the registry rejects the second) -/
 def dupSeries (esc : Bytes → Bytes) (sc : Scenario) : Bool :=
   let keyOf (s : Scope) (i : Inst) (p : Point) : Bytes × List KV × Bytes × Bytes :=
@@ -293,11 +280,10 @@ def namesLegal (legacy : Bool) (fams : List Family) : Bool :=
   fams.all (fun g => metricNameOK legacy g.name &&
     g.series.all (fun t => t.labels.all (fun kv => labelNameOK legacy kv.1) && nodupKeys (t.labels.map (·.1))))
 
-/-- the oracle for one scrape: "ok" | "FAIL" | "KNOWN:F28" | "KNOWN:F34" | "na" -/
+/-- the oracle for one scrape: "ok" | "FAIL" | "KNOWN:F28" | "na" -/
 def promOK (esc : Bytes → Bytes) (sc : Scenario) (o : Obs) : String :=
   if o.panic then "FAIL"
   else if !scenarioValid esc sc then "na"
-  else if F34_applies esc sc then (if o.gerr then "KNOWN:F34" else "na")
   else if o.gerr then "FAIL"
   else if !namesLegal sc.cfg.legacy o.fams then "FAIL"
   else if !infoOK esc sc o.fams then "FAIL"
